@@ -276,8 +276,12 @@ impl Property for C17 {
     }
     fn strategy(&self, tier: Tier) -> BoxedStrategy<Case> {
         // fluctuation limits stay on: a close that breaches the band at a partial ratio of 100% is still a whole close
-        let p = CfgProfile::general();
+        let mut p = CfgProfile::general();
+        // caps and whitelisted traders (exempt from them): a limit is the caller's, whatever the caps say
+        p.caps = true;
         let mut w = Weights::trading();
+        w.whitelist = 3;
+        w.vcfg = 2;
         w.close = 18;
         w.squeeze = 2;
         w.liq_weakest = 2;
